@@ -79,6 +79,9 @@ type Prop[C any] struct {
 	Known    []Known[C]
 	// Sample renders a case for the evidence file (default: the case itself).
 	Sample func(C) any
+	// Minimize, if set, reduces the final failing case further (domain-specific
+	// reduction after rapid's own shrinking); the result must still fail.
+	Minimize func(C) C
 	// HangSeconds > 0: an oracle call running longer than this is a violation
 	// of kind "hang" (the case is persisted and the process exits with status 3).
 	HangSeconds int
@@ -355,6 +358,15 @@ func Run[C any](t *testing.T, p Prop[C]) {
 		stat(p.Name).WallS = time.Since(start).Seconds()
 		mu.Unlock()
 		if t.Failed() && last != nil {
+			if p.Minimize != nil && os.Getenv("VERIF_NO_MINIMIZE") == "" {
+				func() {
+					defer func() { _ = recover() }()
+					m := p.Minimize(*last)
+					if err := safeOracle(p.Oracle, m, &Ctx{}); err != nil {
+						*last, lastMsg = m, err.Error()
+					}
+				}()
+			}
 			path := writeReplay(p.Name, *last, lastMsg)
 			mu.Lock()
 			state.Violations = append(state.Violations, violation{Test: p.Name, Replay: path, Msg: trunc(lastMsg, 2000)})
@@ -404,6 +416,9 @@ func Run[C any](t *testing.T, p Prop[C]) {
 				cb, _ := json.Marshal(c)
 				surveyFirst[sig] = trunc(string(cb), 600) + "  =>  " + trunc(err.Error(), 400)
 				fmt.Printf("SURVEY %s\n   %s\n", sig, surveyFirst[sig])
+				_ = os.MkdirAll("/tmp/survey", 0o755)
+				full, _ := json.MarshalIndent(map[string]any{"sig": sig, "case": c, "err": err.Error()}, "", " ")
+				_ = os.WriteFile(fmt.Sprintf("/tmp/survey/%016x.json", hash64(sig)), full, 0o644)
 			}
 			mu.Unlock()
 			err = nil
